@@ -524,17 +524,20 @@ def gen_macro_body(rng, p, edb, idb, params, nested=None, want=()):
         args = []
         ok = True
         idents = lambda: [v for v in sc.ints() if not (isinstance(v, tuple) and params[v[1]] == "expr")]
+        # read-only arguments (`in`, `expr`) must be bound BEFORE the invocation: a variable the invocation itself binds through an `out` parameter
+        # is not yet bound where the nested body reads the `in` parameter (m0!(v, v) with m0's first clause `r(($p1 + 0), $p0)` does not compile)
+        pre_idents, pre_ints = list(idents()), list(sc.ints())
         for m in mparams:
             if m == "out":
                 if rng.chance(1, 2) and idents(): args.append(("id", rng.choice(idents())))          # joins inside the nested macro
                 else:
                     v = g.fresh(); args.append(("id", v)); sc.bound[v] = "int"
             elif m == "in":
-                if not idents(): ok = False; break
-                args.append(("id", rng.choice(idents())))
+                if not pre_idents: ok = False; break
+                args.append(("id", rng.choice(pre_idents)))
             else:
-                if not sc.ints(): ok = False; break
-                args.append(("ex", g.int_ex(sc.ints())))
+                if not pre_ints: ok = False; break
+                args.append(("ex", g.int_ex(pre_ints)))
         if ok:
             items.append(("mac", mi, args)); tags.add("nested-body")
             locs = [a[1] for a in args if a[0] == "id" and isinstance(a[1], int)] + [v for a in args if a[0] == "ex" for v in gen_vars(a[1]) if isinstance(v, int)]
